@@ -205,6 +205,47 @@ example : Orf.allOrfs [65, 84, 71, 65, 65, 65, 84, 71, 65] [[65, 84, 71]] [[84, 
 example : Orf.acceptOrf [65, 84, 71, 65, 65, 65, 84, 71, 65] [[65, 84, 71]] [[84, 71, 65]] 5 [(0, 9, 0)] = true := by
   decide
 
+/-- **[B] The sliding-window finder of `orf.rs` is sound and complete.**  For codon sets of three-symbol codons
+with no codon both start and stop, the mirror model of `Matches::next` (window, three per-frame lists of pending
+starts, flush at a stop codon with the `break` on the first too-short start) reports *exactly* the open reading
+frames that are more than `minLen + 2` long, with offset `start % 3`, and each of them once — for every sequence,
+all codon sets and every `minLen`. -/
+theorem orf_sound_complete (seq : List Nat) (starts stops : List (List Nat)) (minLen : Nat)
+    (h3s : ∀ c ∈ starts, c.length = 3) (h3p : ∀ c ∈ stops, c.length = 3) (hd : ∀ c ∈ starts, c ∉ stops) :
+    (∀ t, t ∈ Model.OrfScan.findAll starts stops minLen seq ↔
+        (Orf.IsOrf seq starts stops t.1 t.2.1 ∧ minLen + 2 < t.2.1 - t.1 ∧ t.2.2 = t.1 % 3)) ∧
+    (Model.OrfScan.findAll starts stops minLen seq).Nodup := by
+  have inv := Lemmas.OrfScan.run_inv (minLen := minLen) h3s h3p hd seq [] Model.OrfScan.State.init rfl
+    Lemmas.OrfScan.init_inv
+  refine ⟨?_, inv.nodup⟩
+  intro t
+  unfold Model.OrfScan.findAll
+  rw [show ([] : List Nat).length = 0 from rfl] at inv
+  rw [inv.out t]
+  unfold Lemmas.OrfScan.Good
+  constructor
+  · rintro ⟨h1, _, h3, h4⟩; exact ⟨h1, h3, h4⟩
+  · rintro ⟨h1, h3, h4⟩
+    exact ⟨h1, h1.2.1, h3, h4⟩
+
+/-- … hence the model's answer is always accepted by the oracle (the model sits at the lower end of the sandwich) -/
+theorem orf_model_accepted (seq : List Nat) (starts stops : List (List Nat)) (minLen : Nat)
+    (h3s : ∀ c ∈ starts, c.length = 3) (h3p : ∀ c ∈ stops, c.length = 3) (hd : ∀ c ∈ starts, c ∉ stops) :
+    Orf.acceptOrf seq starts stops minLen (Model.OrfScan.findAll starts stops minLen seq) = true := by
+  obtain ⟨hm, hn⟩ := orf_sound_complete seq starts stops minLen h3s h3p hd
+  rw [acceptOrf_iff]
+  refine ⟨?_, hn, ?_⟩
+  · intro t ht
+    obtain ⟨h1, h2, h3⟩ := (hm t).mp ht
+    exact ⟨h1, by omega, h3⟩
+  · intro s e hio hlen
+    exact (hm (s, e, s % 3)).mpr ⟨hio, hlen, rfl⟩
+
+-- nested starts, two frames: ATG ATG AAA TAA G ATG TAG  (min_len 0): both nested frames and the shifted one
+example : Model.OrfScan.findAll [[65, 84, 71]] [[84, 65, 65], [84, 65, 71]] 0
+    [65, 84, 71, 65, 84, 71, 65, 65, 65, 84, 65, 65, 71, 65, 84, 71, 84, 65, 71] = [(0, 12, 0), (3, 12, 0), (13, 19, 1)] := by
+  decide +kernel
+
 /-! ## GC content -/
 
 /-- the exact GC fraction lies in [0, 1] -/
